@@ -4,9 +4,9 @@
 package simhttp
 
 import (
-	"github.com/go-openapi/runtime"
 	"context"
 	"fmt"
+	"github.com/go-openapi/runtime"
 	"io"
 	"net/http"
 	"sync"
